@@ -387,6 +387,19 @@ func starlarkDictToStringMap(dict *starlark.Dict) (map[string]string, error) {
 	return result, nil
 }
 
+// starlarkExpectedOutput converts the optional expected_output field of an output check.
+// A value of the wrong type is an error: silently dropping it would turn the check
+// into one that only looks at the exit status.
+func starlarkExpectedOutput(val starlark.Value) (string, error) {
+	switch typed := val.(type) {
+	case starlark.NoneType:
+		return "", nil
+	case starlark.String:
+		return string(typed), nil
+	}
+	return "", fmt.Errorf("output_check 'expected_output' must be string, got %s", val.Type())
+}
+
 func starlarkListToOutputChecks(list *starlark.List) ([]model.OutputCheck, error) {
 	result := make([]model.OutputCheck, 0, list.Len())
 	iter := list.Iterate()
@@ -413,8 +426,9 @@ func starlarkListToOutputChecks(list *starlark.List) ([]model.OutputCheck, error
 
 			expVal, found, _ := dict.Get(starlark.String("expected_output"))
 			if found {
-				if expStr, ok := expVal.(starlark.String); ok {
-					expectedOutput = string(expStr)
+				expectedOutput, err = starlarkExpectedOutput(expVal)
+				if err != nil {
+					return nil, err
 				}
 			}
 		} else if structVal, ok := val.(*starlarkstruct.Struct); ok {
@@ -431,8 +445,9 @@ func starlarkListToOutputChecks(list *starlark.List) ([]model.OutputCheck, error
 
 			expVal, err := structVal.Attr("expected_output")
 			if err == nil {
-				if expStr, ok := expVal.(starlark.String); ok {
-					expectedOutput = string(expStr)
+				expectedOutput, err = starlarkExpectedOutput(expVal)
+				if err != nil {
+					return nil, err
 				}
 			}
 		} else {
